@@ -1,10 +1,11 @@
 //! props: C19
 //! Generated traits named like the marker traits the macro itself refers to.
-#[::entrait::entrait(Sync)]
+//! (unimock's expansion names `Send`/`Sync` bare, so the traits of those names opt out of unimock.)
+#[::entrait::entrait(Sync, unimock = false)]
 fn sync<D>(deps: &D) {}
 
 pub mod send {
-    #[::entrait::entrait(Send)]
+    #[::entrait::entrait(Send, unimock = false)]
     fn send<D: ::core::clone::Clone>(deps: D) {}
 }
 pub mod future {
@@ -20,7 +21,7 @@ pub mod as_ref {
     }
 }
 pub mod sync_trait {
-    #[::entrait::entrait(SyncImpl, delegate_by = ref)]
+    #[::entrait::entrait(SyncImpl, delegate_by = ref, unimock = false)]
     pub trait Sync {
         fn one(&self) -> u8;
     }
